@@ -1,0 +1,161 @@
+//! Verification hooks (compiled only with `--cfg luqing_studio_nervusdb_verif`).
+//!
+//! A test harness installs a per-thread handler; the storage/query crates call the
+//! free functions below at interesting points. Without a handler installed every hook
+//! is a no-op, and without the cfg flag this module does not exist at all.
+
+use std::cell::RefCell;
+use std::path::Path;
+use std::sync::Arc;
+
+#[derive(Debug, Clone, Copy, PartialEq, Eq)]
+pub enum IoKind {
+    /// `data` is about to be written at `offset`.
+    Write,
+    /// The file is about to be resized to `offset` bytes.
+    SetLen,
+    /// fsync / fdatasync of the file.
+    Sync,
+    /// The file is about to be created (it did not exist).
+    Create,
+    /// `path` is about to be renamed to `to`.
+    Rename,
+    /// `path` is about to be removed.
+    Unlink,
+}
+
+#[derive(Debug)]
+pub struct IoEvent<'a> {
+    pub kind: IoKind,
+    pub path: &'a Path,
+    pub to: Option<&'a Path>,
+    pub offset: u64,
+    pub data: &'a [u8],
+}
+
+#[derive(Debug, Clone, Copy, PartialEq, Eq)]
+pub enum LockEvent {
+    Acquiring,
+    Acquired,
+    Released,
+}
+
+#[derive(Debug, Clone, Copy, PartialEq, Eq)]
+pub enum PageEvent {
+    Alloc,
+    Free,
+    Write,
+}
+
+pub trait Hooks: Send + Sync {
+    /// Called immediately before a mutating file operation. Returning an error makes
+    /// the operation fail without being performed.
+    fn io(&self, _ev: &IoEvent<'_>) -> std::io::Result<()> {
+        Ok(())
+    }
+    /// Named schedule point (no locks that a reader or writer needs are held).
+    fn sched(&self, _point: &'static str) {}
+    fn lock_event(&self, _name: &'static str, _ev: LockEvent) {}
+    fn page_event(&self, _ev: PageEvent, _page: u64, _owner: &'static str) {}
+    /// Clock reading (ns since epoch) used for node identity allocation.
+    fn clock_ns(&self, real: u64) -> u64 {
+        real
+    }
+}
+
+thread_local! {
+    static HOOKS: RefCell<Option<Arc<dyn Hooks>>> = const { RefCell::new(None) };
+    static OWNER: RefCell<Vec<&'static str>> = const { RefCell::new(Vec::new()) };
+}
+
+/// Installs (or removes) the handler of the calling thread; returns the previous one.
+pub fn install(h: Option<Arc<dyn Hooks>>) -> Option<Arc<dyn Hooks>> {
+    HOOKS.with(|c| std::mem::replace(&mut *c.borrow_mut(), h))
+}
+
+pub fn current() -> Option<Arc<dyn Hooks>> {
+    HOOKS.with(|c| c.borrow().clone())
+}
+
+#[inline]
+pub fn io(kind: IoKind, path: &Path, to: Option<&Path>, offset: u64, data: &[u8]) -> std::io::Result<()> {
+    match current() {
+        Some(h) => h.io(&IoEvent {
+            kind,
+            path,
+            to,
+            offset,
+            data,
+        }),
+        None => Ok(()),
+    }
+}
+
+#[inline]
+pub fn sched(point: &'static str) {
+    if let Some(h) = current() {
+        h.sched(point);
+    }
+}
+
+#[inline]
+pub fn clock_ns(real: u64) -> u64 {
+    match current() {
+        Some(h) => h.clock_ns(real),
+        None => real,
+    }
+}
+
+pub fn current_owner() -> &'static str {
+    OWNER.with(|o| o.borrow().last().copied().unwrap_or("unknown"))
+}
+
+#[inline]
+pub fn page_event(ev: PageEvent, page: u64) {
+    if let Some(h) = current() {
+        h.page_event(ev, page, current_owner());
+    }
+}
+
+/// RAII tag: page events emitted while it is alive are attributed to `name`.
+pub struct OwnerScope(());
+
+pub fn owner_scope(name: &'static str) -> OwnerScope {
+    OWNER.with(|o| o.borrow_mut().push(name));
+    OwnerScope(())
+}
+
+impl Drop for OwnerScope {
+    fn drop(&mut self) {
+        OWNER.with(|o| {
+            o.borrow_mut().pop();
+        });
+    }
+}
+
+/// RAII pairing of lock events. Declare it *before* the guard it describes so that it
+/// is dropped after the guard.
+pub struct LockScope(&'static str);
+
+pub fn lock_acquiring(name: &'static str) -> LockScope {
+    if let Some(h) = current() {
+        h.lock_event(name, LockEvent::Acquiring);
+    }
+    LockScope(name)
+}
+
+impl LockScope {
+    pub fn acquired(&self) {
+        if let Some(h) = current() {
+            h.lock_event(self.0, LockEvent::Acquired);
+        }
+    }
+}
+
+impl Drop for LockScope {
+    fn drop(&mut self) {
+        if let Some(h) = current() {
+            h.lock_event(self.0, LockEvent::Released);
+        }
+    }
+}
